@@ -151,3 +151,32 @@ Definition check_any (c : case2) : bool * bool :=
   | CHist c => check_case c
   | COrd ids res => (agree_ord ids res, ok_ord ids res)
   end.
+
+(* ---------- the routes of one endpoint (calculateRoutes) ----------
+   "each interface has the routes of exactly one live endpoint": every route the manager computes for an endpoint goes
+   to one of that endpoint's own addresses (its networks, or its NAT external addresses - those only when floating
+   IPs are enabled or the orchestrator is OpenStack), every own network is routed unless the endpoint is the target of
+   a live migration (then nothing is), and all routes of the endpoint carry one priority: the normal one, or the
+   elevated one while a migration state is recorded. *)
+Definition lm_eqb (a b : lm) : bool :=
+  match a, b with LmNone, LmNone | LmTarget, LmTarget | LmLive, LmLive | LmTimeWait, LmTimeWait => true | _, _ => false end.
+Definition ok_routes (fip openstack : bool) (l : lm) (nprio eprio : N) (nets ext : list N) (rs : list (N * N)) : bool :=
+  if lm_eqb l LmTarget then match rs with [] => true | _ => false end
+  else
+    forallb (fun r => (nmem (fst r) nets || ((fip || openstack) && nmem (fst r) ext))
+                      && (snd r =? (if lm_eqb l LmNone then nprio else eprio))) rs
+    && forallb (fun n => nmem n (map fst rs)) nets
+    && (if fip || openstack then forallb (fun n => nmem n (map fst rs)) ext else true).
+Definition agree_routes (fip openstack : bool) (l : lm) (nprio eprio : N) (nets ext : list N) (rs : list (N * N)) : bool :=
+  list_eqb (pair_eqb N.eqb N.eqb) rs (calc_routes fip openstack l nprio eprio nets ext).
+
+Inductive case3 :=
+| KHist (c : case)
+| KOrd (ids : list sid) (res : list (list bool))
+| KRoutes (fip openstack : bool) (l : lm) (nprio eprio : N) (nets ext : list N) (rs : list (N * N)).
+Definition check_all (c : case3) : bool * bool :=
+  match c with
+  | KHist c => check_case c
+  | KOrd ids res => (agree_ord ids res, ok_ord ids res)
+  | KRoutes fip os l np ep nets ext rs => (agree_routes fip os l np ep nets ext rs, ok_routes fip os l np ep nets ext rs)
+  end.
